@@ -56,6 +56,10 @@ class ClientMetadataClaims(BaseClaims):
         uris = self.get("redirect_uris")
         if uris:
             for uri in uris:
+                # an empty entry is not a redirection URI and must not be
+                # skipped like an omitted optional member
+                if not uri:
+                    raise InvalidClaimError("redirect_uris")
                 self._validate_uri("redirect_uris", uri)
 
     def validate_token_endpoint_auth_method(self):
